@@ -96,7 +96,7 @@ func (en *Engine) newExec(u *UnitInfo) *Exec {
 	// fixed tag table for go/ast nodes (sorted, so that preludes can name them)
 	x := &Exec{prog: en.prog, unit: u, info: u.Pkg.TypesInfo, nameCnt: map[string]int{}, hdr: map[string]Term{},
 		assumed: map[string]bool{}, revealed: map[string]bool{}, maxPaths: 4000, callOrd: map[string]int{}, loopOrd: map[ast.Stmt]int{},
-		modelSort: map[string]string{}, modelType: map[string]types.Type{}}
+		modelSort: map[string]string{}, modelType: map[string]types.Type{}, prov: map[string]string{}}
 	x.d = newDecls("", sigs, psorts)
 	var tagDefs strings.Builder
 	if u.Pkg.Name == "rewriter" {
@@ -105,6 +105,15 @@ func (en *Engine) newExec(u *UnitInfo) *Exec {
 		for _, c := range cands {
 			n := c.(*types.Pointer).Elem().(*types.Named).Obj().Name()
 			fmt.Fprintf(&tagDefs, "(define-fun K_%s () Int %d)\n", n, x.d.tag(c))
+		}
+		for _, imp := range u.Pkg.Imports {
+			if imp.PkgPath == "go/token" && imp.Types != nil {
+				for _, nm := range []string{"BREAK", "CONTINUE", "GOTO", "FALLTHROUGH", "DEFINE", "ASSIGN"} {
+					if c, ok := imp.Types.Scope().Lookup(nm).(*types.Const); ok {
+						fmt.Fprintf(&tagDefs, "(define-fun T%s () Int %s)\n", nm, c.Val().ExactString())
+					}
+				}
+			}
 		}
 	}
 	pre = basePrelude + tagDefs.String() + en.preludeFor(u)
@@ -375,10 +384,41 @@ func (u *UnitSpec) hasFlagReadonly() bool {
 	return false
 }
 
+// wfAst: what go/parser guarantees about the shape of a syntax tree, assumed
+// (and listed) in read-only AST units: block-typed Body fields are non-nil,
+// the statements of a switch body are case clauses, those of a select body are
+// comm clauses. Provenance is tracked on the terms read.
+func (x *Exec) wfAstField(st *State, key, ref string, val Term) {
+	list := func(r string) string { return "(g_ast.BlockStmt.List " + r + ")" }
+	switch key {
+	case "ast.IfStmt.Body", "ast.ForStmt.Body", "ast.RangeStmt.Body":
+		st.assume(sAnd(sNot(sEq(val.S, "nilRef")), "(StmtList "+list(val.S)+")"))
+	case "ast.SwitchStmt.Body", "ast.TypeSwitchStmt.Body":
+		st.assume(sAnd(sNot(sEq(val.S, "nilRef")), "(CaseList "+list(val.S)+")"))
+	case "ast.SelectStmt.Body":
+		st.assume(sAnd(sNot(sEq(val.S, "nilRef")), "(CommList "+list(val.S)+")"))
+	case "ast.CaseClause.Body", "ast.CommClause.Body":
+		st.assume("(StmtList " + val.S + ")")
+	case "ast.LabeledStmt.Stmt":
+		st.assume("(ProperStmt " + val.S + ")")
+	case "ast.IfStmt.Else":
+		st.assume(sImp(sNot(sEq(val.S, "nilIface")), "(ProperStmt "+val.S+")"))
+	}
+}
+
+func (x *Exec) wfAstElem(st *State, sl Term, idx string, val Term) {
+	in := fmt.Sprintf("(and (<= 0 %s) (< %s (s_len %s)))", idx, idx, sl.S)
+	st.assume(sImp(sAnd("(StmtList "+sl.S+")", in), "(ProperStmt "+val.S+")"))
+	st.assume(sImp(sAnd("(CaseList "+sl.S+")", in), sAnd(sEq("(itag "+val.S+")", "K_CaseClause"), "(ClauseStmt "+val.S+")")))
+	st.assume(sImp(sAnd("(CommList "+sl.S+")", in), sAnd(sEq("(itag "+val.S+")", "K_CommClause"), "(ClauseStmt "+val.S+")")))
+}
+
 func (x *Exec) rigidLinkField(st *State, key, ref string, val Term) {
 	if !strings.HasPrefix(key, "ast.") || !x.astReadonly() {
 		return
 	}
+	x.assumed["WfAst: go/parser output is well-formed (non-nil block bodies; statement lists hold proper statements, switch bodies case clauses, select bodies comm clauses; no typed-nil nodes)"] = true
+	x.wfAstField(st, key, ref, val)
 	g := "g_" + key
 	if _, ok := x.d.sigs[g]; !ok {
 		return
@@ -398,6 +438,7 @@ func (x *Exec) rigidLinkElem(st *State, sl Term, idx string, val Term) {
 	if _, ok := x.d.sigs["lget"]; !ok {
 		return
 	}
+	x.wfAstElem(st, sl, idx, val)
 	k := "rigidE@" + sl.S + "@" + idx
 	if st.seenInst[k] {
 		return
@@ -420,6 +461,13 @@ func (x *Exec) noteSpecUnfold(st *State, fun string, args []string) {
 	st.seenInst[k] = true
 	a := strings.Join(args, " ")
 	st.assume(sEq(fmt.Sprintf("(%s %s)", fun, a), fmt.Sprintf("(%s %s)", unf, a)))
+	// secondary instances: the per-element predicate a list predicate unfolds to
+	switch fun {
+	case "AllOK":
+		x.noteSpecUnfold(st, "ClauseOK", []string{args[0], fmt.Sprintf("(lget %s (- %s 1))", args[1], args[2])})
+	case "AllCommOK":
+		x.noteSpecUnfold(st, "CommOK", []string{args[0], fmt.Sprintf("(lget %s (- %s 1))", args[1], args[2])})
+	}
 }
 
 // ---------------------------------------------------------------- seq theory
